@@ -72,12 +72,41 @@ class Report:
         return self
 
 
+def library_exception_report(exc, item):
+    """If `exc` was raised from inside the library under test (innermost frame in
+    $DD_REPO/dd/), turn it into a violation report: the harness only issues calls that the
+    reference model considers valid (rejections are caught where they are expected), so an
+    exception escaping from library code during such a step is a finding, not a harness bug.
+    Returns None for exceptions raised by harness code."""
+    tb = exc.__traceback__
+    last = None
+    while tb is not None:
+        last = tb
+        tb = tb.tb_next
+    if last is None:
+        return None
+    fn = os.path.realpath(last.tb_frame.f_code.co_filename)
+    if not fn.startswith(os.path.realpath(env.REPO) + os.sep):
+        return None
+    rep = Report()
+    where = '%s:%s' % (os.path.basename(fn), last.tb_frame.f_code.co_name)
+    sig = 'library-exception:%s@%s' % (type(exc).__name__, where)
+    rep.violation(sig, 'the library raised %s (%s) in %s during a step the reference model '
+                  'considers valid' % (type(exc).__name__, str(exc)[:120], where),
+                  dict(task=jsonable(item), sig=sig))
+    return rep
+
+
 def _call(args):
     func, item = args
     try:
         env.scratch_dir()
         return ('ok', func(item))
-    except BaseException:  # noqa
+    except BaseException as e:  # noqa
+        if getattr(func, 'returns_report', True) and isinstance(e, Exception):
+            rep = library_exception_report(e, item)
+            if rep is not None:
+                return ('ok', rep)
         return ('err', traceback.format_exc())
 
 
